@@ -9,7 +9,7 @@ HB_ITER = "hashbrown::raw::RawIter"
 HB_BUCKET = "hashbrown::raw::Bucket"
 HB_INTO = "hashbrown::raw::RawIntoIter"
 HB_DRAIN = "hashbrown::raw::RawDrain"
-HB_PAR = "hashbrown::raw::RawParIter"
+HB_PAR = "hashbrown::raw::rayon::RawParIter"
 OPTION = "core::option::Option"
 
 MAIN, LEFT, OLD, CURSOR = "MAIN", "LEFT", "OLD", "CURSOR"
